@@ -15,14 +15,16 @@ CLAIMS = {
         "technique": "contract-based deductive verification (Verus) of the extracted real functions",
         "text": "Unbounded proof (Verus/Z3) that DefaultedLocales::default_of_inner / default_of return the first "
                 "locale on the inheritance chain that defines the key and the default locale when the chain loops, "
-                "for every inherits map (cycles, self reference, forks), that the walk terminates, and that compute() "
-                "groups every defaulted locale under exactly that resolved locale. The function bodies are extracted "
-                "mechanically from /repo on every run.",
+                "for every inherits map (cycles, self reference, forks), that the walk terminates, that compute() "
+                "groups every defaulted locale under exactly that resolved locale, and that check_locales_inner hands "
+                "Locale::merge the locale named in `inherits` (explicitly) or else the default locale (implicitly). The "
+                "function bodies are extracted mechanically from /repo on every run.",
         "note": "Assumed: vstd's BTreeMap/HashSet/iterator specs; lawfulness of Key's hand-written Eq/Ord/Hash "
                 "(obeys_cmp, obeys_key_model for &Key, borrowed-key lookup = membership); Key identity abstracted to an "
                 "id; A1: the std chain BTreeMap::entry(k).or_default().insert(v) adds v under k and nothing else. "
-                "Not covered: how `mapping` is filled (Locale::merge / ParsedValue::merge) and how the generator turns "
-                "compute() into match arms.",
+                "the contracts assumed for Locale::merge / make_builder_keys (unverified traversals). Not covered: how "
+                "`mapping` is filled inside Locale::merge / ParsedValue::merge and how the generator turns compute() "
+                "into match arms.",
         "design_ref": "DESIGN.md section 3, C03",
     },
     "C04": {
@@ -32,10 +34,12 @@ CLAIMS = {
                 "the exclusive-end rewrite `s..e` == Bounds{start: s, end: range_end_bound(e)} under do_match, and "
                 "Range::do_match == Rust's RangeBounds::contains for every flat shape of every numeric type and every "
                 "operand value; (Verus, unbounded in the number of branches) find_value renders the first declared "
-                "branch that contains the count, an error when none does, and populate_with_new_key keeps branches, "
-                "their order and their specifications.",
-        "note": "Assumed: the `Multiple` arm (`a | b` lists) of do_match == exists over its children (neither verifier "
-                "terminates on it); floats under the precondition 'no NaN operand'; Range::new (text to Range), the serde "
+                "branch that contains the count, an error when none does, populate_with_new_key keeps branches, "
+                "their order and their specifications, and populate_with_count_arg selects through find_value on the same "
+                "count converted without loss to the range's type (or rejects it). Bounded extra: the `Multiple` arm of "
+                "do_match for 2-3 children.",
+        "note": "Assumed: the `Multiple` arm (`a | b` lists) of do_match == exists over its children beyond the bounded "
+                "harnesses; i64::try_from(u64) (missing in vstd); the f64->f32 cast is unspecified in Verus; floats under the precondition 'no NaN operand'; Range::new (text to Range), the serde "
                 "visitors, check_de_inner and the macro generator are outside both verifiers. quick runs 3 of the 10 "
                 "numeric types for do_match, thorough all 10.",
         "design_ref": "DESIGN.md section 3, C04",
@@ -66,11 +70,14 @@ CLAIMS = {
     "C11": {
         "technique": "contract-based deductive verification (Verus) of the extracted real functions + spec-level round-trip lemma",
         "text": "Unbounded proof that StringIndexer::push_str hands out an index at which the table holds exactly the "
-                "text, never moves an index, never stores a text twice; Literal::index_strings stores that index; and "
+                "text, never moves an index, never stores a text twice (and every method of impl StringIndexer keeps "
+                "that invariant); Literal::index_strings stores that index; check_locales_inner gives every locale a table "
+                "matching the indices of its literals and records its length; and "
                 "that the build helper's writer emits, for every Unicode text, a JSON array of string literals whose "
                 "RFC 8259 decoding is the text (lemma junesc(jesc(s)) == s for all sequences of chars).",
         "note": "Assumed: four std facts vstd leaves open (String::from view, String view injective, HashMap<String,_> "
-                "lookup by &str); R2 Rc<str> -> String; the 15-line spec decoder equals real JSON decoding. Not covered: "
+                "lookup by &str); R2 Rc<str> -> String; the 15-line spec decoder equals real JSON decoding; the contract "
+                "assumed for the traversals make_builder_keys / merge (`lits_ok`). Not covered: "
                 "ParsedValue::index_strings traversal, string counts, index_translations::<N, I>, StringArray::cast.",
         "design_ref": "DESIGN.md section 3, C11",
     },
